@@ -21,8 +21,7 @@ def build_big(seed):
     rng = subseed(seed, 'universe-big')
     u = U.generate_big(rng)
     plan = [{'op': 'add', 'res': 'r1'}, {'op': 'add', 'res': 'r0'},
-            {'op': 'add_ili', 'file': 'ili0'}, {'op': 'remove', 'spec': 'bige:1'},
-            {'op': 'add', 'res': 'r0', 'route': 'gz'}]
+            {'op': 'remove', 'spec': 'bige:1'}, {'op': 'add', 'res': 'r0', 'route': 'gz'}]
     return u, plan
 
 
